@@ -1575,8 +1575,12 @@ class Connection(object):
             elif isinstance(result, InvalidRequestException):
                 callback(self, result.to_exception())
             else:
-                callback(self, self.defunct(ConnectionException(
-                    "Problem while setting keyspace: %r" % (result,), self.endpoint)))
+                # defunct() returns None when the connection is already closed or defunct;
+                # the failed USE must be reported to the caller all the same
+                conn_exc = ConnectionException(
+                    "Problem while setting keyspace: %r" % (result,), self.endpoint)
+                self.defunct(conn_exc)
+                callback(self, conn_exc)
 
         # We've incremented self.in_flight above, so we "have permission" to
         # acquire a new request id (get_request_id must be called with the lock held)
